@@ -137,6 +137,7 @@ def _contended(s):
 
 SPEC = {
     "C11": {
+        "extra_props": ("QueueHist",),
         "parts": [
             {"name": "signal", "harness": "signal", "model": "Signal", "runtime": True, "gen": gen_signal,
              "nontrivial": lambda s: s["hist"].get("w F#.state", 0) >= 1},
